@@ -140,6 +140,7 @@ func c02One(cases []streamCase, capn, bound int) *explore.Scenario {
 	return &explore.Scenario{
 		Name:   name,
 		Family: "C02/stream",
+		Prop:   "C02",
 		Bound:  bound,
 		Run: func() {
 			w := env.NewWorld()
@@ -158,6 +159,7 @@ func c02One(cases []streamCase, capn, bound int) *explore.Scenario {
 				vsched.Obs("%s", r.Summary())
 				checkC02(r, c)
 			}
+			finishDirect(d, w, true)
 		},
 	}
 }
